@@ -70,3 +70,18 @@ Theorem C03_where_the_machines_differ : forall vf va s,
   exists p args, vf = PrimV p args /\ waits p = true /\ Nat.ltb (length (args ++ [va])) (arity p) = false.
 Proof. exact apply_seq_differs. Qed.
 Print Assumptions C03_where_the_machines_differ.
+
+(* The machine and the translator: for packages of functions that call each
+   other (Tr/MiniGoC.v, C01), the machine - on one thread, waits as the
+   sequential semantics executes them - runs every emitted call to the value
+   Go returns, through any depth of calls. *)
+From GV Require Import Tr.MiniGoC Tr.MiniGoCProofs.
+
+Theorem C03_machine_runs_emitted_calls_to_gos_value : forall P vs,
+  trc_prog P = Some vs ->
+  Forall2 (fun fn F => forall n args v s,
+             length args = length (cf_params fn) ->
+             cgo_body n P (rev (combine (cf_params fn) args)) (cf_body fn) = Some v ->
+             exists k, mrun_seq k (call_expr F args) s = Some (v, s)) P vs.
+Proof. exact prog_correct_on_the_machine. Qed.
+Print Assumptions C03_machine_runs_emitted_calls_to_gos_value.
